@@ -7,6 +7,7 @@
 mod drive;
 mod model;
 mod obj;
+mod pair;
 
 use model::*;
 use obj::*;
@@ -51,7 +52,7 @@ pub struct Track {
 }
 
 impl Track {
-    fn new(c0: &Call) -> Track {
+    pub fn new(c0: &Call) -> Track {
         Track {
             role: c0.role.clone(), idw: c0.idw, ver: c0.ver.clone(), conn: "disc", client: false, tr: false,
             close_req: false, partial: false, ever_closed: false, nconn: 0, persistent: false,
@@ -66,7 +67,7 @@ fn has_send(out: &[E], kind: &str, failing_connack: bool) -> bool {
     out.iter().any(|e| e.ev == "send" && e.pkt.kind == kind && (!failing_connack || e.pkt.rc != 0))
 }
 
-fn track_conn(t: &mut Track, call: &Call, out: &[E], obs: &Value) {
+pub fn track_conn(t: &mut Track, call: &Call, out: &[E], obs: &Value) {
     let recvd = |k: &str| out.iter().any(|e| e.ev == "recv" && e.pkt.kind == k);
     let closed = call.op == "closed" || call.op == "crash";
     let conn_sent = call.op == "send" && call.pkt.kind == "connect" && has_send(out, "connect", false);
@@ -179,14 +180,14 @@ fn local_space(call: &Call) -> bool {
     }
 }
 
-struct StepOut {
-    call: Call,
-    out: Vec<E>,
-    panic: Option<String>,
+pub struct StepOut {
+    pub call: Call,
+    pub out: Vec<E>,
+    pub panic: Option<String>,
 }
 
 /// One public call on one object. `Err` = the schedule cannot be continued (contract / unbuildable).
-fn do_call(c: &mut Box<dyn Conn>, call: &Call, pidmap: &mut HashMap<i64, i64>) -> Result<StepOut, String> {
+pub fn do_call(c: &mut Box<dyn Conn>, call: &Call, pidmap: &mut HashMap<i64, i64>, wire: Option<&[u8]>) -> Result<StepOut, String> {
     let mut call = call.clone();
     if local_space(&call) {
         if call.op == "send" || call.op == "recv" {
@@ -210,7 +211,9 @@ fn do_call(c: &mut Box<dyn Conn>, call: &Call, pidmap: &mut HashMap<i64, i64>) -
         }
         "recv" => {
             let mut p = call.pkt.clone();
-            let bytes = if p.kind == "garbage" {
+            let bytes = if let Some(w) = wire {
+                Ok(w.to_vec())
+            } else if p.kind == "garbage" {
                 Ok(vec![0x00, 0x00])
             } else {
                 let mut q = p.clone();
@@ -221,11 +224,16 @@ fn do_call(c: &mut Box<dyn Conn>, call: &Call, pidmap: &mut HashMap<i64, i64>) -
                 Err(e) => Ok(Err(e)),
                 Ok(b) => {
                     let b = if p.bad != "" && p.bad != "short" { corrupt(&b) } else { b };
-                    p.size = b.len() as i64;
+                    if wire.is_none() {
+                        p.size = b.len() as i64;
+                    }
+                    // flag = false: the transport delivers only the first bytes of the frame
+                    let b = if !call.flag && wire.is_none() { b[..(b.len() + 1) / 2].to_vec() } else { b };
+                    let whole = call.flag;
                     catch(|| c.recv_once(&b, 0)).map(|(ev, pos)| {
                         let mut c2 = call.clone();
                         c2.pkt = p.clone();
-                        c2.flag = true;
+                        c2.flag = whole;
                         c2.val = pos as i64;
                         Ok((ev, c2))
                     })
@@ -277,7 +285,7 @@ fn do_call(c: &mut Box<dyn Conn>, call: &Call, pidmap: &mut HashMap<i64, i64>) -
     }
 }
 
-fn obs_or_empty(c: &Box<dyn Conn>) -> (Value, Value) {
+pub fn obs_or_empty(c: &Box<dyn Conn>) -> (Value, Value) {
     let o = catch(|| c.obs()).unwrap_or(json!({"vacancy": -1, "stored": [], "qos2": [], "ver": "undet"}));
     let d = catch(|| c.dig()).unwrap_or(Value::Null);
     (o, d)
@@ -352,13 +360,13 @@ pub fn execute_from(trie: &mut Trie, src: &mut dyn Source, st: &mut Stats) {
                 t.pidmap_f = HashMap::new();
                 for prior in &done[1..] {
                     if matches!(prior.op.as_str(), "acquire" | "register" | "release") {
-                        let _ = do_call(&mut sh, prior, &mut t.pidmap_f);
+                        let _ = do_call(&mut sh, prior, &mut t.pidmap_f, None);
                     }
                 }
                 shadow = Some(("fixed", sh));
             }
             st.calls += 1;
-            let r = match do_call(&mut main, call, &mut t.pidmap) {
+            let r = match do_call(&mut main, call, &mut t.pidmap, None) {
                 Ok(r) => r,
                 Err(_e) => {
                     st.inapplicable += 1;
@@ -369,7 +377,7 @@ pub fn execute_from(trie: &mut Trie, src: &mut dyn Source, st: &mut Stats) {
             let (mode, out_f, obs_f, panic_f) = if call.op == "crash" {
                 ("none", vec![], o.clone(), false)
             } else if let Some((mode, sh)) = shadow.as_mut() {
-                match do_call(sh, call, &mut t.pidmap_f) {
+                match do_call(sh, call, &mut t.pidmap_f, None) {
                     Ok(rf) => {
                         let (of, _) = obs_or_empty(sh);
                         (*mode, rf.out, of, rf.panic.is_some())
@@ -447,6 +455,21 @@ fn main() {
             }
         }
         i += 1;
+    }
+    let mut i = 0;
+    while i < args.len() {
+        if args[i] == "--pair-edges" && i + 1 < args.len() {
+            for e in read_ndjson(&args[i + 1]) {
+                pair::execute_pair_edge(&mut trie, &e, &mut st);
+            }
+        }
+        i += 1;
+    }
+    if let Some(n) = arg(&args, "--drive-pair") {
+        let n: usize = n.parse().unwrap_or(0);
+        let seed: u64 = arg(&args, "--seed").and_then(|s| s.parse().ok()).unwrap_or(1);
+        let steps: usize = arg(&args, "--steps").and_then(|s| s.parse().ok()).unwrap_or(100);
+        pair::drive_pair(&mut trie, &mut st, n, seed, steps);
     }
     if let Some(n) = arg(&args, "--drive") {
         let n: usize = n.parse().unwrap_or(0);
